@@ -15,6 +15,7 @@ EQUIV_DEPS = {
     'Equiv_bits': ['Gen_bitstring_py', 'Gen_bitstring_h', 'Gen_settings'],
     'Equiv_binom': ['Gen_binom_h'],
     'Equiv_gosper': ['Gen_gosper_c'],
+    'Equiv_guards': ['Gen_util_guards'],
 }
 
 TRUSTED_BASE_COMMON = [
